@@ -51,6 +51,11 @@ def run_case(c, pid):
   variables = jax.tree_util.tree_map(lambda a: a, variables)
   if c.get('drop_col') and c['drop_col'] in variables:
     variables = {k: v for k, v in variables.items() if k != c['drop_col']}
+  if c.get('empty_col') and c['empty_col'] in variables:
+    # the caller hands in an EMPTY collection (e.g. {'params': p, 'cache': {}}): the run must fill its own copy, not the caller's dict
+    variables = {k: ({} if k == c['empty_col'] else v) for k, v in variables.items()}
+    if c.get('frozen'):
+      variables = freeze(variables)
   out['apply_vars_in'] = L.canon_vars(variables)
   mutable = L.dec_filter(c['mutable'])
   rngs = L.rng_dict(c['streams'])
